@@ -73,6 +73,24 @@ class Report:
             self.notes.append(text)
 
 
+_KNOWN = [False, None]
+
+
+def load_known_fns():
+    """family names of the functions that existed when the rules were written (tables/known_fns.json): the rules may
+    address these by name, so they stay calls; a branching helper that is not among them is inlined path by path"""
+    if _KNOWN[0]:
+        return _KNOWN[1]
+    _KNOWN[0] = True
+    p = os.path.join(os.path.dirname(os.path.dirname(os.path.dirname(os.path.abspath(__file__)))), "tables", "known_fns.json")
+    try:
+        with open(p) as f:
+            _KNOWN[1] = set(json.load(f)["fns"])
+    except Exception:
+        _KNOWN[1] = None
+    return _KNOWN[1]
+
+
 def where_of(fn, span=None):
     if span:
         return "%s:%s (%s)" % (span["f"], span["l"], fn.short() if fn is not None else "")
@@ -98,6 +116,10 @@ class Ctx:
         self.debug = bool(self.gecs.debug_assertions)
         self.ex = Executor(self.gecs, debug="skip")
         self.ex_keep = Executor(self.gecs, debug="keep")
+        known = load_known_fns()
+        if known is not None:
+            self.ex.known_fns = known
+            self.ex_keep.known_fns = known
         self.mex = Executor(self.spec.mono, debug="skip") if (self.spec is not None and self.spec.mono) else None
         self.macex = Executor(self.macros, debug="skip")
         self.specex = Executor(self.spec, debug="skip") if self.spec is not None else None
